@@ -124,16 +124,35 @@ Example C06_detect_by_alignment_example :
   detect_by_alignment current_rules reference 3 variants 2 cig query = Some [(1, 1, 30)].
 Proof. vm_compute. repeat split; repeat constructor. Qed.
 
-(* The same statement with reference skips (N) admitted as window ends -- i.e. with `window_end repaired_rules` in the
+(* The same statement with reference skips (N) allowed as window ends -- i.e. with `window_end repaired_rules` in the
    hypotheses -- is AlleleDetect.realign_correct_with_skips_statement R.  It holds for the code as it is now
    (current_rules; skip rule repaired by fix 8735279) and was refuted by the code as it was (original_rules):
    cigar_prefix_length reported the *requested* number of reference bases at an N, so the padded alleles extended
    across the skip.  Witness (found on the real implementation by the correspondence check): reference
    TCTGCATCGTAGTCTCGC, deletion GC>G at 3, read TGCATCC aligned 6M5N1M at 2 carries REF -- ReadSetReader reported ALT. *)
-Theorem C06_realign_correct_with_skips : realign_correct_with_skips_statement current_rules.
+Theorem C06_realign_correct_with_skips :
+  forall (reference query : list Z) (overhang : nat) (v : variant) (cig : cigar)
+         (i consumed qpos : nat) (op : cop) (len : nat) (pre LM V RM post : list cop)
+         (r1 WL WR r2 q1 q2 : list Z) (carried : nat),
+  0 < overhang -> positive_lengths cig ->
+  nth_error cig i = Some (op, len) -> consumed <= len ->
+  firstn (unit_index cig i consumed) (expand cig) = pre ++ LM ->
+  skipn (unit_index cig i consumed) (expand cig) = V ++ RM ++ post ->
+  forallb is_match LM = true -> forallb is_match RM = true -> forallb is_aligned V = true ->
+  carried <= 1 ->
+  ref_units V = length (vref v) -> query_units V = length (get_allele v carried) ->
+  (overhang <= length LM \/ window_end repaired_rules (rev pre)) ->
+  (overhang <= length RM \/ window_end repaired_rules post) ->
+  reference = r1 ++ WL ++ vref v ++ WR ++ r2 -> vpos v = length r1 + length WL ->
+  query = q1 ++ WL ++ get_allele v carried ++ WR ++ q2 ->
+  length WL = length LM -> length WR = length RM ->
+  length q1 = query_units pre -> qpos = query_units (pre ++ LM) ->
+  vref v <> valt v -> is_symbolic v = false ->
+  realign current_rules reference overhang v cig query i consumed qpos = Some (Some carried).
 Proof. exact realign_with_skips_current. Qed.
 Print Assumptions C06_realign_correct_with_skips.
 
+(* realign_correct_with_skips_statement R (coq/model/AlleleDetect.v) is the statement above with R for current_rules *)
 Theorem C06_realign_correct_with_skips_original_refuted : ~ realign_correct_with_skips_statement original_rules.
 Proof. exact realign_with_skips_original_refuted. Qed.
 Print Assumptions C06_realign_correct_with_skips_original_refuted.
@@ -153,17 +172,26 @@ Theorem C06_detect_noref_snv :
 Proof. exact detect_noref_snv. Qed.
 Print Assumptions C06_detect_noref_snv.
 
-(* The full reference-free statement: AlleleDetect.detect_noref_never_wrong_statement R (SNVs and pure insertions /
-   deletions shown at the variant's normalised position, flanked by aligned bases).  Proved here: its SNV clause for every
-   rule set (C06_detect_noref_never_wrong_partial), and of its insertion/deletion clause, for the code as it is now,
-   the three cases "deletion, REF shown", "deletion, ALT shown", "insertion, REF shown"
-   (C06_detect_noref_never_wrong_indel_partial).  Missing: the case "insertion shown (ALT carried) => REF is not
-   reported", validated by the correspondence check only.  For the code as it was (original_rules) the
-   insertion/deletion clause is refuted below. *)
-Definition C06_detect_noref_never_wrong_full_statement : Prop :=
-  detect_noref_never_wrong_statement current_rules.
+(* never the other allele, without reference (the full clause): an alignment that shows allele `carried` of a
+   (normalised) SNV or pure insertion / deletion at the variant's position -- flanked by aligned bases in the indel
+   case -- is never assigned the other allele, whatever else (clips, skips, other insertions/deletions, other variants,
+   operation boundaries, qualities) the alignment and the variant list contain.  For the code as it is now. *)
+Theorem C06_detect_noref_never_wrong :
+  forall (variants : list variant) (start : nat) (cig : cigar) (query quals : list Z) (j a q : nat)
+         (v : variant) (carried : nat) (pre V post : list cop) (q1 q2 : list Z),
+  sorted_pos (index_from 0 (map normalized variants)) -> positive_lengths cig ->
+  In (j, a, q) (detect_noref current_rules variants start cig query quals) ->
+  nth_error (map normalized variants) j = Some v ->
+  (snv_shape v \/ pure_indel v) -> vref v <> valt v -> carried <= 1 ->
+  expand cig = pre ++ V ++ post -> vpos v = start + ref_units pre -> allele_units v carried V ->
+  query = q1 ++ get_allele v carried ++ q2 -> length q1 = query_units pre ->
+  (pure_indel v -> flanked pre post) ->
+  a = carried.
+Proof. exact detect_noref_never_wrong_current. Qed.
+Print Assumptions C06_detect_noref_never_wrong.
 
-Theorem C06_detect_noref_never_wrong_partial :
+(* the SNV clause holds for every rule set, and without the positivity of the CIGAR lengths *)
+Theorem C06_detect_noref_never_wrong_snv :
   forall (R : rules) (variants : list variant) (start : nat) (cig : cigar) (query quals : list Z) (j a q : nat)
          (v : variant) (carried : nat) (pre V post : list cop) (q1 q2 : list Z),
   sorted_pos (index_from 0 (map normalized variants)) ->
@@ -174,22 +202,22 @@ Theorem C06_detect_noref_never_wrong_partial :
   query = q1 ++ get_allele v carried ++ q2 -> length q1 = query_units pre ->
   a = carried.
 Proof. exact detect_noref_never_wrong_snv. Qed.
-Print Assumptions C06_detect_noref_never_wrong_partial.
+Print Assumptions C06_detect_noref_never_wrong_snv.
 
-Theorem C06_detect_noref_never_wrong_indel_partial :
+(* no allele for a variant the read does not overlap, without reference: a reported variant's normalised position
+   lies within the reference span of the alignment (at its end only for an insertion operation that ends the CIGAR).
+   (The clause in terms of the footprint of the ORIGINAL record, AlleleDetect.detect_noref_only_overlapped_statement,
+   is not proved: it needs the CIGAR not to end with an insertion; it is validated by the correspondence check and
+   was refuted by the code as it was, see below.) *)
+Theorem C06_detect_noref_within_span :
   forall (R : rules), r_ins_span R = true ->
-  forall (variants : list variant) (start : nat) (cig : cigar) (query quals : list Z) (j a q : nat)
-         (v : variant) (carried : nat) (pre V post : list cop),
-  sorted_pos (index_from 0 (map normalized variants)) -> positive_lengths cig ->
+  forall (variants : list variant) (start : nat) (cig : cigar) (query quals : list Z) (j a q : nat) (v : variant),
+  sorted_pos (index_from 0 (map normalized variants)) ->
   In (j, a, q) (detect_noref R variants start cig query quals) ->
   nth_error (map normalized variants) j = Some v ->
-  pure_indel v -> carried <= 1 ->
-  expand cig = pre ++ V ++ post -> vpos v = start + ref_units pre -> allele_units v carried V ->
-  flanked pre post ->
-  (vref v = [] -> carried = 0) ->
-  a = carried.
-Proof. exact detect_noref_never_wrong_indel_kill. Qed.
-Print Assumptions C06_detect_noref_never_wrong_indel_partial.
+  start <= vpos v /\ vpos v <= start + ref_units (expand cig).
+Proof. exact detect_noref_within_span. Qed.
+Print Assumptions C06_detect_noref_within_span.
 
 (* non-vacuity: a deletion shown by the read (CG>C at 4: normalised G> at 5) and an insertion not shown (A>ATT at 8) *)
 Example C06_detect_noref_indel_example :
@@ -212,6 +240,23 @@ vm_compute. repeat split; repeat constructor.
 - exists OpM, [OpM;OpM]. now split.
 Qed.
 
+(* non-vacuity: the insertion C>CTT at 3 shown by two adjacent insertion operations behind a soft clip *)
+Example C06_detect_noref_insertion_example :
+  let variants := [mkVar 3 [67] [67;84;84]]%Z in
+  let cig := [(OpS, 1); (OpM, 4); (OpI, 1); (OpI, 1); (OpEQ, 3)] in
+  let query := [9; 65;71;65;67; 84;84; 71;65;71]%Z in
+  map normalized variants = [mkVar 4 [] [84;84]]%Z /\
+  detect_noref current_rules variants 0 cig query [] = [(0, 1, 30)] /\
+  expand cig = [OpS;OpM;OpM;OpM;OpM] ++ [OpI;OpI] ++ [OpEQ;OpEQ;OpEQ] /\
+  allele_units (mkVar 4 [] [84;84])%Z 1 [OpI;OpI] /\ flanked [OpS;OpM;OpM;OpM;OpM] [OpEQ;OpEQ;OpEQ] /\
+  query = [9; 65;71;65;67]%Z ++ [84;84]%Z ++ [71;65;71]%Z /\ 5 = query_units [OpS;OpM;OpM;OpM;OpM].
+Proof.
+vm_compute. repeat split.
+- exists []. repeat split.
+- exists [OpS;OpM;OpM;OpM], OpM. now split.
+- exists OpEQ, [OpEQ;OpEQ]. now split.
+Qed.
+
 (* non-vacuity: two SNVs, the second inside a read with soft clip, insertion and skip; both resolved *)
 Example C06_detect_noref_example :
   let variants := [mkVar 3 [65] [67]; mkVar 9 [71] [84]; mkVar 30 [65] [67]]%Z in
@@ -222,7 +267,8 @@ Example C06_detect_noref_example :
   query_index cig 1 3 = Some 4 /\ query_index cig 1 9 = Some 9.
 Proof. vm_compute. repeat split; repeat constructor. Qed.
 
-(* The code as it was refuted the insertion clause: at an I operation _detect_alleles queued every insertion variant
+(* detect_noref_never_wrong_statement R (coq/model/AlleleDetect.v) is the statement of C06_detect_noref_never_wrong with
+   R for current_rules.  The code as it was refuted the insertion clause: at an I operation _detect_alleles queued every insertion variant
    less than `length` bases downstream (ref_end = ref_pos + length; repaired by fix 064e8b6).  Witness: reference
    GATCAGTC, listed insertion C>CGG at 3, read GATTTCGGAGTC aligned 3M2I1M2I4M carries it behind an unrelated
    insertion TT -- reported: REF. *)
@@ -246,10 +292,17 @@ Print Assumptions C06_detect_noref_only_overlapped_original_refuted.
    differently) holds for the code as it is now and was refuted by the code
    as it was: create_read_from_group dropped every alignment whose strand differs from the last primary one, i.e. one
    mate of every forward/reverse pair (repaired by fix ad24a2d). *)
-Theorem C06_pair_keeps_both_mates : pair_keeps_both_mates_statement current_rules.
+Theorem C06_pair_keeps_both_mates :
+  forall (threshold : Z) (r1 r2 : aligned_read) (x : rvar),
+  (0 <= threshold)%Z -> ar_start r2 <= ar_end r2 ->
+  ar_supp r1 = false -> ar_supp r2 = false -> ar_name r1 = ar_name r2 ->
+  Z.leb (ar_distance current_rules r2 r1) threshold = true ->
+  In x (ar_vars r1) -> (forall y, In y (ar_vars r1 ++ ar_vars r2) -> fst (fst y) = fst (fst x) -> y = x) ->
+  exists vs, read_from_group current_rules threshold [r1; r2] = Some (ar_name r2, vs) /\ In x vs.
 Proof. exact pair_keeps_both_mates_current. Qed.
 Print Assumptions C06_pair_keeps_both_mates.
 
+(* pair_keeps_both_mates_statement R is the statement above with R for current_rules *)
 Theorem C06_pair_keeps_both_mates_original_refuted : ~ pair_keeps_both_mates_statement original_rules.
 Proof. exact pair_keeps_both_mates_original_refuted. Qed.
 Print Assumptions C06_pair_keeps_both_mates_original_refuted.
@@ -259,10 +312,15 @@ Print Assumptions C06_pair_keeps_both_mates_original_refuted.
    alignment spanning more than the supplementary distance threshold (default 100 000) dropped out of its own group and
    the read lost every allele (reproduced on the real implementation with a 100 250 base alignment; repaired by fix
    9cec2b4). *)
-Theorem C06_single_alignment_kept : single_alignment_kept_statement current_rules.
+Theorem C06_single_alignment_kept :
+  forall (threshold : Z) (r : aligned_read) (x : rvar),
+  (0 <= threshold)%Z -> ar_supp r = false -> ar_start r <= ar_end r -> In x (ar_vars r) ->
+  (forall y, In y (ar_vars r) -> fst (fst y) = fst (fst x) -> y = x) ->
+  exists vs, read_from_group current_rules threshold [r] = Some (ar_name r, vs) /\ In x vs.
 Proof. exact single_alignment_kept_current. Qed.
 Print Assumptions C06_single_alignment_kept.
 
+(* single_alignment_kept_statement R is the statement above with R for current_rules *)
 Theorem C06_single_alignment_kept_original_refuted : ~ single_alignment_kept_statement original_rules.
 Proof. exact single_alignment_kept_original_refuted. Qed.
 Print Assumptions C06_single_alignment_kept_original_refuted.
